@@ -390,6 +390,23 @@ def refused_root_case(rng, k, n):
     return {"k": k, "cfg": cfg, "ops": ops, "probes": probes, "globs": globs, "scripted": True}
 
 
+def large_case(rng, k, n):
+    """an object with hundreds of files (compact root inventory of 70-200 KB on ONE line, or pretty printed) next to
+    small ones: listed by every glob that matches its id, found by id with and without a layout, purged when asked"""
+    lay = ("none", "0004", "0002", "none")[n % 4]
+    cfg = {"layout": lay, "repo_spec": "1.1", "obj_spec": "1.1", "alg": ("sha512", "sha256")[(n // 4) % 2], "cdir": "content", "pad": 0,
+           "ext_staging": n % 3 == 0, "fresh_handle": n % 2 == 0}
+    big, small = "big-%d" % n, "small-%d" % n
+    root = (lambda x: "objs/" + x) if lay == "none" else (lambda x: None)
+    ops = [{"op": "create", "raw": small, "id": small, "root": root(small), "pretty": False},
+           {"op": "create", "raw": big, "id": big, "root": root(big), "pretty": n % 8 >= 6, "bulk": (420, 900)[n % 2]},
+           {"op": "update", "id": big, "pretty": False},
+           {"op": "purge", "id": small},
+           {"op": "purge", "id": big}]
+    globs = [glob_tokens(rng, [big, small]) for _ in range(3)] + [[("star",)]]
+    return {"k": k, "cfg": cfg, "ops": ops, "probes": ["big", "nope"], "globs": globs, "scripted": True}
+
+
 def occupied_case(rng, k, n):
     """flat layouts: ids whose layout path exists without being an object - the storage root's `extensions`
     directory and files, and (0002, ids with `/`) a directory other objects are stored beneath.  get_object
@@ -424,7 +441,9 @@ def gen_cases(ctx):
     m2 = 8 if ctx.quick() else 48
     cases += [occupied_case(ctx.rng, n + m + j, j) for j in range(m2)]
     m3 = 8 if ctx.quick() else 48
-    return cases + [refused_root_case(ctx.rng, n + m + m2 + j, j) for j in range(m3)]
+    cases += [refused_root_case(ctx.rng, n + m + m2 + j, j) for j in range(m3)]
+    m4 = 4 if ctx.quick() else 16
+    return cases + [large_case(ctx.rng, n + m + m2 + m3 + j, j) for j in range(m4)]
 
 
 # --------------------------------------------------------------------------- running a case
@@ -496,8 +515,13 @@ class CaseRun:
             self.cache_touch(op["id"])
         return self.r.step(op)[1]
 
-    def add_file(self, tid):
+    def add_file(self, tid, bulk=0):
         self.nfile += 1
+        if bulk:
+            # many files at once: the compact (one-line) root inventory grows beyond the buffer sizes of line-oriented readers
+            files = {"sub%d/file-%04d.txt" % (k % 7, k): b"bulk %d %d" % (self.nfile, k) for k in range(bulk)}
+            return self.step({"op": "cp_ext", "id": tid, "files": [], "dir": ["bulk%d" % self.nfile, files], "dst": "bulk%d" % self.nfile,
+                              "recursive": True})
         return self.step({"op": "cp_ext", "id": tid, "files": [["f%d.txt" % self.nfile, b"content %d" % self.nfile]],
                           "dst": "f%d.txt" % self.nfile})
 
@@ -517,7 +541,7 @@ class CaseRun:
             ev["res"].append(hist.res_class(r))
             if not ok(r):
                 return False
-            r = self.add_file(tid)
+            r = self.add_file(tid, op.get("bulk", 0))
             ev["res"].append(hist.res_class(r))
             if not ok(r):
                 return False
